@@ -2,9 +2,11 @@
 //
 // Bounded exhaustive enumeration on the real types.Block / types.PartSet / merkle code:
 //
-//	A. for every base block of a small family and every single perturbation (thorough: every pair) of a
+//	A. for every base block of a small family (heights 1-3, 0-3 account transactions, optionally a fourth,
+//	   confidential one, 0-2 evidence items) and every single perturbation (thorough: every pair) of a
 //	   header field, a transaction (content, order, duplication), an evidence item or the LastCommit, the
-//	   pair (Block.Hash(), MakePartSet(sz).Header()) differs from that of every block with other content;
+//	   pair (Block.Hash(), MakePartSet(sz).Header()) differs from that of every block with other content, and
+//	   the bytes a validator signs for that pair (Vote.SignBytes) differ as well;
 //	B. explicit-state search (engine opx) over all delivery sequences of genuine, duplicated and forged
 //	   parts into a PartSet made from the signed header, against a set-of-indices reference model; the
 //	   completed set reads back and decodes to the proposer's block on both reassembly paths;
@@ -384,7 +386,8 @@ func main() {
 		"C: every (index,total,leaf,aunts) case evaluated by the real SimpleProof.Verify")
 	r.Assume("block content = every exported, serialized field of Header (incl. Recover), Data.Txs, Evidence and LastCommit; Header.bloom is excluded: it is neither hashed nor transmitted (it is rebuilt from the receipts)")
 	r.Assume("the oracle is the PAIR (Block.Hash(), part-set header): which half moves is recorded as coverage (only_partset_hash_changes), not judged")
-	r.Assume("keccak-256 behaves as collision resistant on the enumerated inputs; transactions are account-based (Transaction, TokenTransaction); confidential (UTXO) transactions are outside (crypto stand-in is a stub)")
+	r.Assume("keccak-256 behaves as collision resistant on the enumerated inputs; transaction kinds: Transaction, TokenTransaction and one confidential UTXOTransaction (account input -> 2 UTXO outputs + 1 account output, built by types.NewAinTransaction on the crypto stand-in; only its encoding and hash are exercised, not its proofs); UTXO-input transactions (ring signatures, key images), ContractUpgradeTx and MultiSignAccountTx are outside the bound")
+	r.Assume("content of the confidential transaction = every exported field of its object graph except MgSig.II, Bulletproof.V, RctSigBase.Message, RctSigBase.MixRing (derived at the receiver, tagged as not serialized and not hashed)")
 	r.Assume("parts reach AddPart as fresh objects decoded from the repository's wire encoding (no cached Part.hash), as in the consensus reactor; a forged part that is byte-identical to the proposer's part for its index counts as genuine")
 	r.Assume("rejection of a part means added=false and an unchanged set; which error value is returned is not part of the property")
 	r.Assume("the total of a part set comes from the signed header: proofs that also verify under another total are counted (merkle_proofs_also_valid_under_another_total), not judged")
